@@ -400,3 +400,228 @@ Proof.
            rewrite A1 by lia. exact L2.
         -- apply A2. lia.
 Qed.
+
+(* ------------------------------------------------------------------ small facts about the trees *)
+Lemma mk_tree_ok x t' : mk_tree x = TOk t' -> t' = x /\ validate x = true.
+Proof. unfold mk_tree. destruct (validate x); [|discriminate]. intros H. inversion H. split; reflexivity. Qed.
+
+(* the guard of _drop_level: a level that is neither absent nor the leaf level of a non-flat tree *)
+Lemma drop_ok_facts t li t' : drop_level t li = TOk t' -> (S li < length t)%nat /\ t' = raw_drop t li.
+Proof.
+  unfold drop_level, drop_level_gen.
+  destruct (Nat.eqb (length t) 1) eqn:E1; [discriminate|].
+  destruct (Nat.leb (length t) li) eqn:E2; [discriminate|].
+  destruct (Nat.eqb (S li) (length t)) eqn:E3; [discriminate|]. cbn [negb andb].
+  apply Nat.leb_gt in E2. apply Nat.eqb_neq in E3. intros H. split; [lia|].
+  destruct li as [|pi]; apply mk_tree_ok in H; destruct H as [H _]; exact H.
+Qed.
+
+Lemma drop_cells_length t : length (drop_cells t) = length t.
+Proof.
+  destruct t as [|a l]; [reflexivity|].
+  destruct (drop_cells_shape (a :: l)) as (above & lf & E & ->); [discriminate|].
+  rewrite E, !app_length. reflexivity.
+Qed.
+
+(* tree_for_metadata has the levels of the tree as read, except for the rows of the leaves *)
+Lemma drop_cells_nth t k : (S k < length t)%nat -> nth k (drop_cells t) [] = nth k t [].
+Proof.
+  intros H. destruct t as [|a l]; [reflexivity|].
+  destruct (drop_cells_shape (a :: l)) as (above & lf & E & ->); [discriminate|].
+  rewrite E in H |- *. rewrite app_length in H. cbn in H. rewrite !app_nth1 by lia. reflexivity.
+Qed.
+
+Lemma seq_split m li : (li < m)%nat -> seq 0 m = seq 0 li ++ li :: seq (S li) (m - S li).
+Proof.
+  intros H. replace m with (li + S (m - S li))%nat at 1 by lia. rewrite seq_app. reflexivity.
+Qed.
+
+Lemma Forall2_same {A} (R : A -> A -> Prop) l : (forall x, In x l -> R x x) -> Forall2 R l l.
+Proof. induction l as [|x l IH]; intros H; constructor; [apply H; left; reflexivity | apply IH; intros y Hy; apply H; right; exact Hy]. Qed.
+
+Lemma Forall2_map_transfer {A B C D} (P : B -> C -> Prop) (Q : C -> D -> Prop) (f : A -> B) (g : A -> D) l outs :
+  Forall2 P (map f l) outs -> (forall x o, In x l -> P (f x) o -> Q o (g x)) -> Forall2 Q outs (map g l).
+Proof.
+  revert outs. induction l as [|x l IH]; intros outs H HPQ; cbn in H; inversion H; subst; cbn; constructor.
+  - apply HPQ; [left; reflexivity | assumption].
+  - apply IH; [assumption | intros x' o' Hx'; apply HPQ; right; exact Hx'].
+Qed.
+
+(* no level missing: backfill_assignments leaves every cell alone *)
+Lemma backfill_full t' rows :
+  Forall (fun row => length row = length t') rows ->
+  backfill (drop_cells t') (map (place (seq 0 (length t'))) rows) = TOk (map (place (seq 0 (length t'))) rows).
+Proof.
+  intros Hlen. apply backfill_spec. apply Forall2_same. intros c Hc.
+  apply in_map_iff in Hc. destruct Hc as (row & <- & Hrow).
+  rewrite Forall_forall in Hlen. specialize (Hlen row Hrow).
+  unfold backfill_one. apply fold_present. intros k Hk. apply in_rev in Hk. apply in_seq in Hk.
+  rewrite drop_cells_length in Hk. rewrite lookup_place_id by exact Hlen.
+  destruct (nth_error row k) eqn:E; [discriminate|]. apply nth_error_None in E. lia.
+Qed.
+
+(* ------------------------------------------------------------------ one cell, one level dropped *)
+Definition drop_rel (t : tree) (li : nat) (a b : cellmap) : Prop :=
+  (forall k, k <> li -> lookup k a = lookup (if (k <? li)%nat then k else pred k) b) /\
+  exists fine p,
+    lookup (S li) a = Some fine /\ o_direct fine = true /\
+    parent_of (nth li t []) (o_asg fine) = Some p /\
+    lookup li a = Some (inferred p fine).
+
+Lemma backfill_one_drop t li row o :
+  (S li < length t)%nat -> length row = (length t - 1)%nat ->
+  backfill_one (drop_cells t) (place (remove_nth li (seq 0 (length t))) row) = TOk o ->
+  drop_rel t li o (place (seq 0 (length t - 1)) row).
+Proof.
+  intros Hli Hlen H. set (n := length t) in *.
+  set (c := place (remove_nth li (seq 0 n)) row) in *.
+  assert (Lc : forall k, lookup k c = if (k =? li)%nat then None else option_map direct (nth_error row (down_level li k))).
+  { intros k. unfold c. apply lookup_place_drop; [lia | exact Hlen]. }
+  destruct (nth_error row li) as [r|] eqn:Er; [|apply nth_error_None in Er; lia].
+  assert (Lli : lookup li c = None) by (rewrite Lc, Nat.eqb_refl; reflexivity).
+  assert (LS : lookup (S li) c = Some (direct r)).
+  { rewrite Lc. replace (S li =? li)%nat with false by (symmetry; apply Nat.eqb_neq; lia).
+    unfold down_level. replace (S li <? li)%nat with false by (symmetry; apply Nat.ltb_ge; lia).
+    cbn [pred]. rewrite Er. reflexivity. }
+  assert (Lother : forall k, (k < n - 1)%nat -> k <> li -> lookup k c <> None).
+  { intros k Hk Hne. rewrite Lc. apply Nat.eqb_neq in Hne. rewrite Hne.
+    destruct (nth_error row (down_level li k)) eqn:E; [discriminate|].
+    apply nth_error_None in E. unfold down_level in E. destruct (k <? li)%nat eqn:E2; [|apply Nat.ltb_ge in E2]; lia. }
+  unfold backfill_one in H. rewrite drop_cells_length in H. fold n in H.
+  rewrite (seq_split (n - 1) li) in H by lia.
+  rewrite rev_app_distr in H. cbn [rev] in H. rewrite <- app_assoc in H. cbn [app] in H.
+  rewrite (fold_single_gap _ _ li _ c (direct r)) in H; [| | |exact Lli|exact LS].
+  - rewrite drop_cells_nth in H by lia. cbn [direct o_asg] in H.
+    destruct (parent_of (nth li t []) (asg r)) as [p|] eqn:Ep; [|discriminate].
+    inversion H; subst o. clear H. split.
+    + intros k Hk. rewrite lookup_app.
+      assert (E : lookup k [(li, inferred p (direct r))] = None)
+        by (cbn; apply Nat.eqb_neq in Hk; rewrite Hk; reflexivity).
+      rewrite E. rewrite lookup_place_id by exact Hlen.
+      rewrite Lc. apply Nat.eqb_neq in Hk. rewrite Hk. unfold down_level.
+      destruct (option_map direct (nth_error row (if (k <? li)%nat then k else pred k))); reflexivity.
+    + exists (direct r), p. split; [rewrite lookup_app, LS; reflexivity|]. split; [reflexivity|].
+      split; [exact Ep|]. rewrite lookup_app, Lli. cbn. rewrite Nat.eqb_refl. reflexivity.
+  - intros k Hk. apply in_rev in Hk. apply in_seq in Hk. apply Lother; lia.
+  - intros k Hk. apply in_rev in Hk. apply in_seq in Hk. apply Lother; lia.
+Qed.
+
+(* ------------------------------------------------------------------ one cell, flattened *)
+Definition flat_rel (t : tree) (a b : cellmap) : Prop :=
+  lookup (length t - 1) a = lookup 0 b /\
+  forall k, (S k < length t)%nat -> exists finer p,
+    lookup (S k) a = Some finer /\ parent_of (nth k t []) (o_asg finer) = Some p /\
+    lookup k a = Some (inferred p finer).
+
+Lemma backfill_one_flat t r o :
+  t <> [] ->
+  backfill_one (drop_cells t) (place [(length t - 1)%nat] [r]) = TOk o ->
+  flat_rel t o (place [0%nat] [r]).
+Proof.
+  intros Hne H. set (n := length t) in *.
+  assert (Hn : (0 < n)%nat) by (unfold n; destruct t; [congruence | cbn; lia]).
+  unfold backfill_one in H. rewrite drop_cells_length in H. fold n in H.
+  change (place [(n - 1)%nat] [r]) with [((n - 1)%nat, direct r)] in H.
+  change (place [0%nat] [r]) with [(0%nat, direct r)].
+  unfold flat_rel. fold n.
+  destruct (n - 1)%nat as [|d] eqn:En.
+  - cbn in H. inversion H; subst o. split; [reflexivity|]. intros k Hk. lia.
+  - destruct (fold_climb (drop_cells t) d [(S d, direct r)] o) as (A1 & A2).
+    + intros k Hk. cbn. replace (k =? S d)%nat with false by (symmetry; apply Nat.eqb_neq; lia). reflexivity.
+    + cbn. rewrite Nat.eqb_refl. discriminate.
+    + exact H.
+    + split.
+      * rewrite A1 by lia. cbn. rewrite Nat.eqb_refl. reflexivity.
+      * intros k Hk. destruct (A2 k) as (finer & p & F1 & F2 & F3); [lia|].
+        exists finer, p. rewrite drop_cells_nth in F2 by exact Hk. auto.
+Qed.
+
+(* ------------------------------------------------------------------ the theorems about run_mapping_model *)
+Section Theorems.
+Variable cell rng : Type.
+Variable cache_ok : tree -> Markers.table -> bool.
+Variable mk_decide : tree -> Markers.table ->
+                     rng -> option (nat * node) -> list node -> list cell -> list rec * rng.
+Notation run := (run_mapping_model cell rng cache_ok mk_decide).
+Definition cfg_none : cfg := {| cfg_drop := None; cfg_flatten := false |}.
+Definition cfg_dropping (li : nat) : cfg := {| cfg_drop := Some li; cfg_flatten := false |}.
+Definition cfg_flat : cfg := {| cfg_drop := None; cfg_flatten := true |}.
+
+Lemma reduce_none t : reduce t cfg_none = TOk (t, seq 0 (length t)).
+Proof. reflexivity. Qed.
+
+Lemma reduce_absent t li f : (length t <= li)%nat ->
+  reduce t {| cfg_drop := Some li; cfg_flatten := f |} = reduce t {| cfg_drop := None; cfg_flatten := f |}.
+Proof.
+  intros H. unfold reduce. cbn [cfg_drop cfg_flatten].
+  replace (li <? length t)%nat with false by (symmetry; apply Nat.ltb_ge; exact H). reflexivity.
+Qed.
+
+(* C17, third sentence: a drop_level that is not a level of the taxonomy changes nothing *)
+Theorem drop_absent_noop t li f tb cells g : (length t <= li)%nat ->
+  run t {| cfg_drop := Some li; cfg_flatten := f |} tb cells g =
+  run t {| cfg_drop := None; cfg_flatten := f |} tb cells g.
+Proof. intros H. unfold run_mapping_model. rewrite (reduce_absent t li f H). reflexivity. Qed.
+
+(* C17, first sentence *)
+Theorem drop_equals_reduced t li t' tb cells g :
+  drop_level t li = TOk t' ->
+  match run t' cfg_none tb cells g with
+  | TErr e => run t (cfg_dropping li) tb cells g = TErr e
+  | TOk (rowsB, g') =>
+      run t (cfg_dropping li) tb cells g = TErr Tree.E_KEY \/
+      exists rowsA, run t (cfg_dropping li) tb cells g = TOk (rowsA, g') /\
+                    Forall2 (drop_rel t li) rowsA rowsB
+  end.
+Proof.
+  intros Hd. destruct (drop_ok_facts t li t' Hd) as [Hli Eraw].
+  assert (Hlen' : length t' = (length t - 1)%nat) by (rewrite Eraw; apply raw_drop_length; lia).
+  assert (RA : reduce t (cfg_dropping li) = TOk (t', remove_nth li (seq 0 (length t)))).
+  { unfold reduce. cbn [cfg_dropping cfg_drop cfg_flatten].
+    replace (li <? length t)%nat with true by (symmetry; apply Nat.ltb_lt; lia). rewrite Hd. reflexivity. }
+  unfold run_mapping_model. rewrite RA, reduce_none. cbn [cfg_flatten cfg_dropping cfg_none].
+  destruct (cache_ok t' tb); cbn [negb]; [|reflexivity].
+  destruct (run_type_assignment cell rng (mk_decide t' tb) t' cells g) as [[rows g']| | |] eqn:El; try reflexivity.
+  destruct (rta_shape _ _ _ _ _ _ _ _ El) as [_ Hrows].
+  rewrite (backfill_full t' rows Hrows).
+  destruct (backfill (drop_cells t) (map (place (remove_nth li (seq 0 (length t)))) rows)) as [rowsA|e] eqn:EA.
+  - right. exists rowsA. split; [reflexivity|]. apply backfill_spec in EA.
+    eapply Forall2_map_transfer; [exact EA|]. intros row o Hrow Ho. cbn beta in Ho.
+    rewrite Forall_forall in Hrows. specialize (Hrows row Hrow). rewrite Hlen'.
+    apply backfill_one_drop; [exact Hli | lia | exact Ho].
+  - left. f_equal. eapply backfill_err. exact EA.
+Qed.
+
+(* C17, second sentence *)
+Theorem flatten_equals_one_level t tb cells g :
+  validate t = true ->
+  match run [leaf_level t] cfg_none (Markers.flatten_table tb) cells g with
+  | TErr e => run t cfg_flat tb cells g = TErr e
+  | TOk (rowsB, g') =>
+      run t cfg_flat tb cells g = TErr Tree.E_KEY \/
+      exists rowsA, run t cfg_flat tb cells g = TOk (rowsA, g') /\ Forall2 (flat_rel t) rowsA rowsB
+  end.
+Proof.
+  intros V. destruct (flatten_accepted t V) as (Ef & _ & _).
+  assert (Hne : t <> []) by (apply validate_iff in V; tauto).
+  assert (Hn : (0 < length t)%nat) by (destruct t; [congruence | cbn; lia]).
+  assert (RA : reduce t cfg_flat = TOk ([leaf_level t], [(length t - 1)%nat])).
+  { unfold reduce. cbn [cfg_flat cfg_drop cfg_flatten]. rewrite Ef. unfold last_only. rewrite seq_length.
+    do 2 f_equal. rewrite (seq_split (length t) (length t - 1)) by lia.
+    rewrite skipn_app, seq_length, Nat.sub_diag. rewrite skipn_all2 by (rewrite seq_length; lia).
+    replace (length t - S (length t - 1))%nat with 0%nat by lia. reflexivity. }
+  unfold run_mapping_model. rewrite RA, reduce_none. cbn [cfg_flatten cfg_flat cfg_none length seq].
+  destruct (cache_ok [leaf_level t] (Markers.flatten_table tb)); cbn [negb]; [|reflexivity].
+  destruct (run_type_assignment cell rng (mk_decide [leaf_level t] (Markers.flatten_table tb)) [leaf_level t] cells g)
+    as [[rows g']| | |] eqn:El; try reflexivity.
+  destruct (rta_shape _ _ _ _ _ _ _ _ El) as [_ Hrows].
+  pose proof (backfill_full [leaf_level t] rows Hrows) as HB. cbn [length seq] in HB. rewrite HB.
+  destruct (backfill (drop_cells t) (map (place [(length t - 1)%nat]) rows)) as [rowsA|e] eqn:EA.
+  - right. exists rowsA. split; [reflexivity|]. apply backfill_spec in EA.
+    eapply Forall2_map_transfer; [exact EA|]. intros row o Hrow Ho. cbn beta in Ho.
+    rewrite Forall_forall in Hrows. specialize (Hrows row Hrow). cbn [length] in Hrows.
+    destruct row as [|r [|r2 row]]; try discriminate.
+    apply backfill_one_flat; [exact Hne | exact Ho].
+  - left. f_equal. eapply backfill_err. exact EA.
+Qed.
+End Theorems.
